@@ -337,8 +337,15 @@ func runC15(c *runCtx) {
 				c.propfail("C15", fmt.Sprintf("Lookup(%q) finds something before the name is registered", n))
 			}
 		}
-		mimetype.Extend(never, "application/x-verif-c15", ".c15", "application/zz-c15", "application/mm-c15", "application/aa-c15")
+		// (registration through a node's method first, and checked before any package-level Extend runs: whatever one
+		// path does to remembered look-ups, the other must do too)
 		mimetype.Lookup("text/plain").Extend(never, "text/x-verif-c15b", ".b", "text/x-verif-c15b-alias")
+		for _, n := range []string{"text/x-verif-c15b", "text/x-verif-c15b-alias"} {
+			if l := mimetype.Lookup(n); l == nil || !l.Is(n) {
+				c.propfail("C15", fmt.Sprintf("a name looked up (and missed) before it was registered through (*MIME).Extend does not resolve afterwards: Lookup(%q)=%v", n, l))
+			}
+		}
+		mimetype.Extend(never, "application/x-verif-c15", ".c15", "application/zz-c15", "application/mm-c15", "application/aa-c15")
 		for _, n := range []string{"application/x-verif-c15", "application/zz-c15", "application/mm-c15", "application/aa-c15", "text/x-verif-c15b", "text/x-verif-c15b-alias"} {
 			l := mimetype.Lookup(n)
 			c.stats.note("extended-name", []byte(n), len(n), true)
